@@ -22,227 +22,251 @@ const mutCtors = 6
 
 var mutBySpace = map[string]mutFuncs{
 	"srgb": {
-		toXYZ: func(ctor int, l [3]float32) ciexyz.Color { return (func(ctor int, l [3]float32) srgb.Color {
-			var c srgb.Color
-			switch ctor {
-			case 0:
-				c = srgb.ColorFromXYZ(ciexyz.Color{X: 0.3, Y: 0.4, Z: 0.5})
-			case 1:
-				c, _ = srgb.ColorFromNRGBA(color.NRGBA{R: 10, G: 200, B: 30, A: 255})
-			case 2:
-				c = srgb.ColorFromLinear(9, 9, 9)
-			case 3:
-				c, _ = srgb.ColorFromEncodedColor(color.Gray{Y: 77})
-			case 4:
-				c, _ = srgb.ColorFromLinearColor(color.RGBA64{R: 1000, G: 2000, B: 3000, A: 40000})
-			default:
-			}
-			c.R, c.G, c.B = l[0], l[1], l[2]
-			return c
-		})(ctor, l).ToXYZ() },
-		toRGBA64: func(ctor int, l [3]float32, a float32) color.RGBA64 { return (func(ctor int, l [3]float32) srgb.Color {
-			var c srgb.Color
-			switch ctor {
-			case 0:
-				c = srgb.ColorFromXYZ(ciexyz.Color{X: 0.3, Y: 0.4, Z: 0.5})
-			case 1:
-				c, _ = srgb.ColorFromNRGBA(color.NRGBA{R: 10, G: 200, B: 30, A: 255})
-			case 2:
-				c = srgb.ColorFromLinear(9, 9, 9)
-			case 3:
-				c, _ = srgb.ColorFromEncodedColor(color.Gray{Y: 77})
-			case 4:
-				c, _ = srgb.ColorFromLinearColor(color.RGBA64{R: 1000, G: 2000, B: 3000, A: 40000})
-			default:
-			}
-			c.R, c.G, c.B = l[0], l[1], l[2]
-			return c
-		})(ctor, l).ToRGBA64(a) },
-		toNRGBA: func(ctor int, l [3]float32, a float32) color.NRGBA { return (func(ctor int, l [3]float32) srgb.Color {
-			var c srgb.Color
-			switch ctor {
-			case 0:
-				c = srgb.ColorFromXYZ(ciexyz.Color{X: 0.3, Y: 0.4, Z: 0.5})
-			case 1:
-				c, _ = srgb.ColorFromNRGBA(color.NRGBA{R: 10, G: 200, B: 30, A: 255})
-			case 2:
-				c = srgb.ColorFromLinear(9, 9, 9)
-			case 3:
-				c, _ = srgb.ColorFromEncodedColor(color.Gray{Y: 77})
-			case 4:
-				c, _ = srgb.ColorFromLinearColor(color.RGBA64{R: 1000, G: 2000, B: 3000, A: 40000})
-			default:
-			}
-			c.R, c.G, c.B = l[0], l[1], l[2]
-			return c
-		})(ctor, l).ToNRGBA(a) },
+		toXYZ: func(ctor int, l [3]float32) ciexyz.Color {
+			return (func(ctor int, l [3]float32) srgb.Color {
+				var c srgb.Color
+				switch ctor {
+				case 0:
+					c = srgb.ColorFromXYZ(ciexyz.Color{X: 0.3, Y: 0.4, Z: 0.5})
+				case 1:
+					c, _ = srgb.ColorFromNRGBA(color.NRGBA{R: 10, G: 200, B: 30, A: 255})
+				case 2:
+					c = srgb.ColorFromLinear(9, 9, 9)
+				case 3:
+					c, _ = srgb.ColorFromEncodedColor(color.Gray{Y: 77})
+				case 4:
+					c, _ = srgb.ColorFromLinearColor(color.RGBA64{R: 1000, G: 2000, B: 3000, A: 40000})
+				default:
+				}
+				c.R, c.G, c.B = l[0], l[1], l[2]
+				return c
+			})(ctor, l).ToXYZ()
+		},
+		toRGBA64: func(ctor int, l [3]float32, a float32) color.RGBA64 {
+			return (func(ctor int, l [3]float32) srgb.Color {
+				var c srgb.Color
+				switch ctor {
+				case 0:
+					c = srgb.ColorFromXYZ(ciexyz.Color{X: 0.3, Y: 0.4, Z: 0.5})
+				case 1:
+					c, _ = srgb.ColorFromNRGBA(color.NRGBA{R: 10, G: 200, B: 30, A: 255})
+				case 2:
+					c = srgb.ColorFromLinear(9, 9, 9)
+				case 3:
+					c, _ = srgb.ColorFromEncodedColor(color.Gray{Y: 77})
+				case 4:
+					c, _ = srgb.ColorFromLinearColor(color.RGBA64{R: 1000, G: 2000, B: 3000, A: 40000})
+				default:
+				}
+				c.R, c.G, c.B = l[0], l[1], l[2]
+				return c
+			})(ctor, l).ToRGBA64(a)
+		},
+		toNRGBA: func(ctor int, l [3]float32, a float32) color.NRGBA {
+			return (func(ctor int, l [3]float32) srgb.Color {
+				var c srgb.Color
+				switch ctor {
+				case 0:
+					c = srgb.ColorFromXYZ(ciexyz.Color{X: 0.3, Y: 0.4, Z: 0.5})
+				case 1:
+					c, _ = srgb.ColorFromNRGBA(color.NRGBA{R: 10, G: 200, B: 30, A: 255})
+				case 2:
+					c = srgb.ColorFromLinear(9, 9, 9)
+				case 3:
+					c, _ = srgb.ColorFromEncodedColor(color.Gray{Y: 77})
+				case 4:
+					c, _ = srgb.ColorFromLinearColor(color.RGBA64{R: 1000, G: 2000, B: 3000, A: 40000})
+				default:
+				}
+				c.R, c.G, c.B = l[0], l[1], l[2]
+				return c
+			})(ctor, l).ToNRGBA(a)
+		},
 	},
 	"adobe": {
-		toXYZ: func(ctor int, l [3]float32) ciexyz.Color { return (func(ctor int, l [3]float32) adobergb.Color {
-			var c adobergb.Color
-			switch ctor {
-			case 0:
-				c = adobergb.ColorFromXYZ(ciexyz.Color{X: 0.3, Y: 0.4, Z: 0.5})
-			case 1:
-				c, _ = adobergb.ColorFromNRGBA(color.NRGBA{R: 10, G: 200, B: 30, A: 255})
-			case 2:
-				c = adobergb.ColorFromLinear(9, 9, 9)
-			case 3:
-				c, _ = adobergb.ColorFromEncodedColor(color.Gray{Y: 77})
-			case 4:
-				c, _ = adobergb.ColorFromLinearColor(color.RGBA64{R: 1000, G: 2000, B: 3000, A: 40000})
-			default:
-			}
-			c.R, c.G, c.B = l[0], l[1], l[2]
-			return c
-		})(ctor, l).ToXYZ() },
-		toRGBA64: func(ctor int, l [3]float32, a float32) color.RGBA64 { return (func(ctor int, l [3]float32) adobergb.Color {
-			var c adobergb.Color
-			switch ctor {
-			case 0:
-				c = adobergb.ColorFromXYZ(ciexyz.Color{X: 0.3, Y: 0.4, Z: 0.5})
-			case 1:
-				c, _ = adobergb.ColorFromNRGBA(color.NRGBA{R: 10, G: 200, B: 30, A: 255})
-			case 2:
-				c = adobergb.ColorFromLinear(9, 9, 9)
-			case 3:
-				c, _ = adobergb.ColorFromEncodedColor(color.Gray{Y: 77})
-			case 4:
-				c, _ = adobergb.ColorFromLinearColor(color.RGBA64{R: 1000, G: 2000, B: 3000, A: 40000})
-			default:
-			}
-			c.R, c.G, c.B = l[0], l[1], l[2]
-			return c
-		})(ctor, l).ToRGBA64(a) },
-		toNRGBA: func(ctor int, l [3]float32, a float32) color.NRGBA { return (func(ctor int, l [3]float32) adobergb.Color {
-			var c adobergb.Color
-			switch ctor {
-			case 0:
-				c = adobergb.ColorFromXYZ(ciexyz.Color{X: 0.3, Y: 0.4, Z: 0.5})
-			case 1:
-				c, _ = adobergb.ColorFromNRGBA(color.NRGBA{R: 10, G: 200, B: 30, A: 255})
-			case 2:
-				c = adobergb.ColorFromLinear(9, 9, 9)
-			case 3:
-				c, _ = adobergb.ColorFromEncodedColor(color.Gray{Y: 77})
-			case 4:
-				c, _ = adobergb.ColorFromLinearColor(color.RGBA64{R: 1000, G: 2000, B: 3000, A: 40000})
-			default:
-			}
-			c.R, c.G, c.B = l[0], l[1], l[2]
-			return c
-		})(ctor, l).ToNRGBA(a) },
+		toXYZ: func(ctor int, l [3]float32) ciexyz.Color {
+			return (func(ctor int, l [3]float32) adobergb.Color {
+				var c adobergb.Color
+				switch ctor {
+				case 0:
+					c = adobergb.ColorFromXYZ(ciexyz.Color{X: 0.3, Y: 0.4, Z: 0.5})
+				case 1:
+					c, _ = adobergb.ColorFromNRGBA(color.NRGBA{R: 10, G: 200, B: 30, A: 255})
+				case 2:
+					c = adobergb.ColorFromLinear(9, 9, 9)
+				case 3:
+					c, _ = adobergb.ColorFromEncodedColor(color.Gray{Y: 77})
+				case 4:
+					c, _ = adobergb.ColorFromLinearColor(color.RGBA64{R: 1000, G: 2000, B: 3000, A: 40000})
+				default:
+				}
+				c.R, c.G, c.B = l[0], l[1], l[2]
+				return c
+			})(ctor, l).ToXYZ()
+		},
+		toRGBA64: func(ctor int, l [3]float32, a float32) color.RGBA64 {
+			return (func(ctor int, l [3]float32) adobergb.Color {
+				var c adobergb.Color
+				switch ctor {
+				case 0:
+					c = adobergb.ColorFromXYZ(ciexyz.Color{X: 0.3, Y: 0.4, Z: 0.5})
+				case 1:
+					c, _ = adobergb.ColorFromNRGBA(color.NRGBA{R: 10, G: 200, B: 30, A: 255})
+				case 2:
+					c = adobergb.ColorFromLinear(9, 9, 9)
+				case 3:
+					c, _ = adobergb.ColorFromEncodedColor(color.Gray{Y: 77})
+				case 4:
+					c, _ = adobergb.ColorFromLinearColor(color.RGBA64{R: 1000, G: 2000, B: 3000, A: 40000})
+				default:
+				}
+				c.R, c.G, c.B = l[0], l[1], l[2]
+				return c
+			})(ctor, l).ToRGBA64(a)
+		},
+		toNRGBA: func(ctor int, l [3]float32, a float32) color.NRGBA {
+			return (func(ctor int, l [3]float32) adobergb.Color {
+				var c adobergb.Color
+				switch ctor {
+				case 0:
+					c = adobergb.ColorFromXYZ(ciexyz.Color{X: 0.3, Y: 0.4, Z: 0.5})
+				case 1:
+					c, _ = adobergb.ColorFromNRGBA(color.NRGBA{R: 10, G: 200, B: 30, A: 255})
+				case 2:
+					c = adobergb.ColorFromLinear(9, 9, 9)
+				case 3:
+					c, _ = adobergb.ColorFromEncodedColor(color.Gray{Y: 77})
+				case 4:
+					c, _ = adobergb.ColorFromLinearColor(color.RGBA64{R: 1000, G: 2000, B: 3000, A: 40000})
+				default:
+				}
+				c.R, c.G, c.B = l[0], l[1], l[2]
+				return c
+			})(ctor, l).ToNRGBA(a)
+		},
 	},
 	"prophoto": {
-		toXYZ: func(ctor int, l [3]float32) ciexyz.Color { return (func(ctor int, l [3]float32) prophotorgb.Color {
-			var c prophotorgb.Color
-			switch ctor {
-			case 0:
-				c = prophotorgb.ColorFromXYZ(ciexyz.Color{X: 0.3, Y: 0.4, Z: 0.5})
-			case 1:
-				c, _ = prophotorgb.ColorFromNRGBA(color.NRGBA{R: 10, G: 200, B: 30, A: 255})
-			case 2:
-				c = prophotorgb.ColorFromLinear(9, 9, 9)
-			case 3:
-				c, _ = prophotorgb.ColorFromEncodedColor(color.Gray{Y: 77})
-			case 4:
-				c, _ = prophotorgb.ColorFromLinearColor(color.RGBA64{R: 1000, G: 2000, B: 3000, A: 40000})
-			default:
-			}
-			c.R, c.G, c.B = l[0], l[1], l[2]
-			return c
-		})(ctor, l).ToXYZ() },
-		toRGBA64: func(ctor int, l [3]float32, a float32) color.RGBA64 { return (func(ctor int, l [3]float32) prophotorgb.Color {
-			var c prophotorgb.Color
-			switch ctor {
-			case 0:
-				c = prophotorgb.ColorFromXYZ(ciexyz.Color{X: 0.3, Y: 0.4, Z: 0.5})
-			case 1:
-				c, _ = prophotorgb.ColorFromNRGBA(color.NRGBA{R: 10, G: 200, B: 30, A: 255})
-			case 2:
-				c = prophotorgb.ColorFromLinear(9, 9, 9)
-			case 3:
-				c, _ = prophotorgb.ColorFromEncodedColor(color.Gray{Y: 77})
-			case 4:
-				c, _ = prophotorgb.ColorFromLinearColor(color.RGBA64{R: 1000, G: 2000, B: 3000, A: 40000})
-			default:
-			}
-			c.R, c.G, c.B = l[0], l[1], l[2]
-			return c
-		})(ctor, l).ToRGBA64(a) },
-		toNRGBA: func(ctor int, l [3]float32, a float32) color.NRGBA { return (func(ctor int, l [3]float32) prophotorgb.Color {
-			var c prophotorgb.Color
-			switch ctor {
-			case 0:
-				c = prophotorgb.ColorFromXYZ(ciexyz.Color{X: 0.3, Y: 0.4, Z: 0.5})
-			case 1:
-				c, _ = prophotorgb.ColorFromNRGBA(color.NRGBA{R: 10, G: 200, B: 30, A: 255})
-			case 2:
-				c = prophotorgb.ColorFromLinear(9, 9, 9)
-			case 3:
-				c, _ = prophotorgb.ColorFromEncodedColor(color.Gray{Y: 77})
-			case 4:
-				c, _ = prophotorgb.ColorFromLinearColor(color.RGBA64{R: 1000, G: 2000, B: 3000, A: 40000})
-			default:
-			}
-			c.R, c.G, c.B = l[0], l[1], l[2]
-			return c
-		})(ctor, l).ToNRGBA(a) },
+		toXYZ: func(ctor int, l [3]float32) ciexyz.Color {
+			return (func(ctor int, l [3]float32) prophotorgb.Color {
+				var c prophotorgb.Color
+				switch ctor {
+				case 0:
+					c = prophotorgb.ColorFromXYZ(ciexyz.Color{X: 0.3, Y: 0.4, Z: 0.5})
+				case 1:
+					c, _ = prophotorgb.ColorFromNRGBA(color.NRGBA{R: 10, G: 200, B: 30, A: 255})
+				case 2:
+					c = prophotorgb.ColorFromLinear(9, 9, 9)
+				case 3:
+					c, _ = prophotorgb.ColorFromEncodedColor(color.Gray{Y: 77})
+				case 4:
+					c, _ = prophotorgb.ColorFromLinearColor(color.RGBA64{R: 1000, G: 2000, B: 3000, A: 40000})
+				default:
+				}
+				c.R, c.G, c.B = l[0], l[1], l[2]
+				return c
+			})(ctor, l).ToXYZ()
+		},
+		toRGBA64: func(ctor int, l [3]float32, a float32) color.RGBA64 {
+			return (func(ctor int, l [3]float32) prophotorgb.Color {
+				var c prophotorgb.Color
+				switch ctor {
+				case 0:
+					c = prophotorgb.ColorFromXYZ(ciexyz.Color{X: 0.3, Y: 0.4, Z: 0.5})
+				case 1:
+					c, _ = prophotorgb.ColorFromNRGBA(color.NRGBA{R: 10, G: 200, B: 30, A: 255})
+				case 2:
+					c = prophotorgb.ColorFromLinear(9, 9, 9)
+				case 3:
+					c, _ = prophotorgb.ColorFromEncodedColor(color.Gray{Y: 77})
+				case 4:
+					c, _ = prophotorgb.ColorFromLinearColor(color.RGBA64{R: 1000, G: 2000, B: 3000, A: 40000})
+				default:
+				}
+				c.R, c.G, c.B = l[0], l[1], l[2]
+				return c
+			})(ctor, l).ToRGBA64(a)
+		},
+		toNRGBA: func(ctor int, l [3]float32, a float32) color.NRGBA {
+			return (func(ctor int, l [3]float32) prophotorgb.Color {
+				var c prophotorgb.Color
+				switch ctor {
+				case 0:
+					c = prophotorgb.ColorFromXYZ(ciexyz.Color{X: 0.3, Y: 0.4, Z: 0.5})
+				case 1:
+					c, _ = prophotorgb.ColorFromNRGBA(color.NRGBA{R: 10, G: 200, B: 30, A: 255})
+				case 2:
+					c = prophotorgb.ColorFromLinear(9, 9, 9)
+				case 3:
+					c, _ = prophotorgb.ColorFromEncodedColor(color.Gray{Y: 77})
+				case 4:
+					c, _ = prophotorgb.ColorFromLinearColor(color.RGBA64{R: 1000, G: 2000, B: 3000, A: 40000})
+				default:
+				}
+				c.R, c.G, c.B = l[0], l[1], l[2]
+				return c
+			})(ctor, l).ToNRGBA(a)
+		},
 	},
 	"p3": {
-		toXYZ: func(ctor int, l [3]float32) ciexyz.Color { return (func(ctor int, l [3]float32) displayp3.Color {
-			var c displayp3.Color
-			switch ctor {
-			case 0:
-				c = displayp3.ColorFromXYZ(ciexyz.Color{X: 0.3, Y: 0.4, Z: 0.5})
-			case 1:
-				c, _ = displayp3.ColorFromNRGBA(color.NRGBA{R: 10, G: 200, B: 30, A: 255})
-			case 2:
-				c = displayp3.ColorFromLinear(9, 9, 9)
-			case 3:
-				c, _ = displayp3.ColorFromEncodedColor(color.Gray{Y: 77})
-			case 4:
-				c, _ = displayp3.ColorFromLinearColor(color.RGBA64{R: 1000, G: 2000, B: 3000, A: 40000})
-			default:
-			}
-			c.R, c.G, c.B = l[0], l[1], l[2]
-			return c
-		})(ctor, l).ToXYZ() },
-		toRGBA64: func(ctor int, l [3]float32, a float32) color.RGBA64 { return (func(ctor int, l [3]float32) displayp3.Color {
-			var c displayp3.Color
-			switch ctor {
-			case 0:
-				c = displayp3.ColorFromXYZ(ciexyz.Color{X: 0.3, Y: 0.4, Z: 0.5})
-			case 1:
-				c, _ = displayp3.ColorFromNRGBA(color.NRGBA{R: 10, G: 200, B: 30, A: 255})
-			case 2:
-				c = displayp3.ColorFromLinear(9, 9, 9)
-			case 3:
-				c, _ = displayp3.ColorFromEncodedColor(color.Gray{Y: 77})
-			case 4:
-				c, _ = displayp3.ColorFromLinearColor(color.RGBA64{R: 1000, G: 2000, B: 3000, A: 40000})
-			default:
-			}
-			c.R, c.G, c.B = l[0], l[1], l[2]
-			return c
-		})(ctor, l).ToRGBA64(a) },
-		toNRGBA: func(ctor int, l [3]float32, a float32) color.NRGBA { return (func(ctor int, l [3]float32) displayp3.Color {
-			var c displayp3.Color
-			switch ctor {
-			case 0:
-				c = displayp3.ColorFromXYZ(ciexyz.Color{X: 0.3, Y: 0.4, Z: 0.5})
-			case 1:
-				c, _ = displayp3.ColorFromNRGBA(color.NRGBA{R: 10, G: 200, B: 30, A: 255})
-			case 2:
-				c = displayp3.ColorFromLinear(9, 9, 9)
-			case 3:
-				c, _ = displayp3.ColorFromEncodedColor(color.Gray{Y: 77})
-			case 4:
-				c, _ = displayp3.ColorFromLinearColor(color.RGBA64{R: 1000, G: 2000, B: 3000, A: 40000})
-			default:
-			}
-			c.R, c.G, c.B = l[0], l[1], l[2]
-			return c
-		})(ctor, l).ToNRGBA(a) },
+		toXYZ: func(ctor int, l [3]float32) ciexyz.Color {
+			return (func(ctor int, l [3]float32) displayp3.Color {
+				var c displayp3.Color
+				switch ctor {
+				case 0:
+					c = displayp3.ColorFromXYZ(ciexyz.Color{X: 0.3, Y: 0.4, Z: 0.5})
+				case 1:
+					c, _ = displayp3.ColorFromNRGBA(color.NRGBA{R: 10, G: 200, B: 30, A: 255})
+				case 2:
+					c = displayp3.ColorFromLinear(9, 9, 9)
+				case 3:
+					c, _ = displayp3.ColorFromEncodedColor(color.Gray{Y: 77})
+				case 4:
+					c, _ = displayp3.ColorFromLinearColor(color.RGBA64{R: 1000, G: 2000, B: 3000, A: 40000})
+				default:
+				}
+				c.R, c.G, c.B = l[0], l[1], l[2]
+				return c
+			})(ctor, l).ToXYZ()
+		},
+		toRGBA64: func(ctor int, l [3]float32, a float32) color.RGBA64 {
+			return (func(ctor int, l [3]float32) displayp3.Color {
+				var c displayp3.Color
+				switch ctor {
+				case 0:
+					c = displayp3.ColorFromXYZ(ciexyz.Color{X: 0.3, Y: 0.4, Z: 0.5})
+				case 1:
+					c, _ = displayp3.ColorFromNRGBA(color.NRGBA{R: 10, G: 200, B: 30, A: 255})
+				case 2:
+					c = displayp3.ColorFromLinear(9, 9, 9)
+				case 3:
+					c, _ = displayp3.ColorFromEncodedColor(color.Gray{Y: 77})
+				case 4:
+					c, _ = displayp3.ColorFromLinearColor(color.RGBA64{R: 1000, G: 2000, B: 3000, A: 40000})
+				default:
+				}
+				c.R, c.G, c.B = l[0], l[1], l[2]
+				return c
+			})(ctor, l).ToRGBA64(a)
+		},
+		toNRGBA: func(ctor int, l [3]float32, a float32) color.NRGBA {
+			return (func(ctor int, l [3]float32) displayp3.Color {
+				var c displayp3.Color
+				switch ctor {
+				case 0:
+					c = displayp3.ColorFromXYZ(ciexyz.Color{X: 0.3, Y: 0.4, Z: 0.5})
+				case 1:
+					c, _ = displayp3.ColorFromNRGBA(color.NRGBA{R: 10, G: 200, B: 30, A: 255})
+				case 2:
+					c = displayp3.ColorFromLinear(9, 9, 9)
+				case 3:
+					c, _ = displayp3.ColorFromEncodedColor(color.Gray{Y: 77})
+				case 4:
+					c, _ = displayp3.ColorFromLinearColor(color.RGBA64{R: 1000, G: 2000, B: 3000, A: 40000})
+				default:
+				}
+				c.R, c.G, c.B = l[0], l[1], l[2]
+				return c
+			})(ctor, l).ToNRGBA(a)
+		},
 	},
 }
